@@ -18,4 +18,7 @@ theorem publish_outside : publishOutside = true := by decide
 theorem C06_publish_fault (k : Nat) (c : ExcClass) : runPublishFault shape publishOutside k c = expectedPublishFault k c := by
   rw [publish_outside]; exact publish_fault_wellformed shape shape_good k c
 
+/-- The extracted shape is accepted for the right reason: it is well-formed on *every* plan iff it passes `good10`. -/
+theorem C06_tight : (∀ p, runTraced shape p = expected p) ↔ shape.good10 = true := trace_wellformed_iff shape
+
 end SemantivaModel.Tie.C06
